@@ -74,14 +74,19 @@ Step(q) ==
              stable |-> \A s \in LiveStrings : FindImplIn(q.post, s) = MinOf(OwnerMap[s])]  \* ShippedStable
 
     [] q.k = "dbop" ->
-         \* q: [op, name, outcome, e (entry of the adsorbate operated on), pre / post (registry as name sequences),
-         \*     sweep << [site, s, before, after] >> (lookup results, as adsorbate names, before and after the operation)]
+         \* q: [op, name, outcome, e (entry of the adsorbate operated on AS IT WAS BEFORE the operation), pre / post
+         \*     (registry as name sequences), sweep << [site, s, before, after, before_backend, after_backend] >>
+         \*     (lookup results as adsorbate names before and after the operation, and the backend link of the object found)]
          LET affected(s) == s \in Eff(q.e)
-             moved == {i \in DOMAIN q.sweep : q.sweep[i].before # q.sweep[i].after
-                                               /\ (q.outcome = "refused" \/ ~affected(q.sweep[i].s))}
+             moved == {i \in DOMAIN q.sweep :
+                         \/ ~LookupStepSpec(q.op, q.name, q.outcome, affected(q.sweep[i].s), q.sweep[i].before, q.sweep[i].after)
+                         \/ (q.sweep[i].after = q.sweep[i].before /\ q.sweep[i].after_backend # q.sweep[i].before_backend)}
          IN [ok |-> DbStepSpec(q.op, q.name, q.outcome, q.pre, q.post),
              lookups_changed |-> SetToSeq({q.sweep[i] : i \in moved}),
-             shipped_prefix_kept |-> (q.outcome = "refused") => (Len(q.post) >= NLive /\ \A i \in 1..NLive : q.post[i] = Live[i].name)]
+             shipped_prefix_kept |-> (q.outcome = "refused" \/ q.op = "from_db") => q.post = q.pre]
+    [] q.k = "roundtrip" ->
+         \* an adsorbate read back from a database it was uploaded to answers to the same strings and keeps its backend link
+         [diff |-> EntryDiff(q.a, q.b)]
 
 ASSUME JsonSerialize(IOEnv.X_OUT, [i \in 1..Len(Q) |-> Step(Q[i])])
 VARIABLE x
